@@ -129,8 +129,14 @@ EXEMPT_SINK_FUNCS = {
 MAX_UNRESOLVED = 20
 
 
+# rules that keep their verdict however the code is laid out (decided by term equality, effect analysis or dominance over
+# resolved calls); every other rule of this check is a template rule (vcheck.core.Check.obt)
+SEMANTIC = ('E2', 'E2.no-sink')
+
+
 def run(chk):
     repo = PyRepo()
+    chk.set_templates(repo, semantic=SEMANTIC)
     cs = c_summaries()
     eng = effects.Effects(repo, cs)
     chk.explanation = MANIFEST["text"]
